@@ -31,6 +31,16 @@ invoked DebugInfoItem constructor.  Inside the closure
   strictly shrinking slice argument).
 Nothing is executed: summaries come from an abstract interpretation of stream positions
 (agstatic/callgraph.py).
+
+Verdict policy.  A missing certificate is NOT a violation.  A finding is reported only for a loop /
+recursion in the closure that works on the input stream AND for which a *definite non-progress path*
+was established: one syntactic path round the loop (every `if` outside inner loops followed one
+branch at a time), every fact on it exact knowledge (no unknown seek target, unresolved call, callee
+of unknown effect, read result that is indexed / handed to code that may reject short data), on which
+no touched stream ends ahead of where it started (or it is put back at a loop-invariant position), no
+state compared with an invariant bound by an exit condition moves towards it, and no exit condition
+depends on other loop-carried state.  Everything else -- value-driven loops, loops over constant
+tables, shapes the search does not understand -- ends the run undecided (exit 2).
 """
 from __future__ import annotations
 
@@ -676,7 +686,7 @@ class Core:
                 back, run, _ = sa.loop_effect(f, loop, counters=counters, collections=colls, oracle=oracle,
                                               inv_test=(lambda e: self.invariant(e, loop)))
             if back is not None and not run.loose:
-                ok = True
+                ok = all(run.read_result_is_inert(rc) for rc in run.unchecked_reads)
                 facts = []
                 for key in sorted(back.keys()):
                     if key.startswith("#"):
@@ -1025,7 +1035,8 @@ class Core:
                     r2.oracle = oracle
                     o2 = r2.block(M.node.body, SState())
                     e2 = s_join(o2.fall, o2.ret)
-                    if e2 is not None and not r2.loose and not self._path_may_set(r2, t, msn, (ev, flag)):
+                    if e2 is not None and not r2.loose and not self._path_may_set(r2, t, msn, (ev, flag)) \
+                            and all(r2.read_result_is_inert(rc) for rc in r2.unchecked_reads):
                         keys = [k for k in e2.keys() if k.startswith(msn + ".")]
                         if all(e2.p(k)[0] > -INF and e2.p(k)[0] <= 0 for k in keys):
                             c.definite = "%s returns on path %s without consuming input (%s), without the terminal event %d and with `%s` still true" % (
@@ -1308,7 +1319,7 @@ class Core:
                             why = "`%s` advanced %s with >= %d checked byte(s) before the call" % (k, iv_str(p), a)
                         else:
                             why = "`%s` advanced only %s with >= %d checked byte(s) before the call" % (k, iv_str(p), a)
-                            dfn = (-INF < p[0] <= 0) and not run.loose
+                            dfn = (-INF < p[0] <= 0) and not run.loose and all(run.read_result_is_inert(rc, on_path=False) for rc in run.unchecked_reads)
                 if not ok and self._shrinking_arg(cnode, params):
                     ok = True
                     why = "an argument is a strictly shorter slice of a parameter"
@@ -1479,7 +1490,8 @@ FIXTURE_EXPECT = {"while_bad": "finding", "while_ok": "cert", "while_eof_exit_ok
                   "counted_bad": "finding", "counted_ok": "cert", "counter_bad": "undecided", "counter_ok": "cert",
                   "countdown_ok": "cert", "shift_ok": "cert", "len_bound_ok": "cert", "guard_bounded_ok": "cert",
                   "flag_drain_ok": "cert", "opaque_seek_undecided": "undecided", "value_loop_undecided": "undecided",
-                  "retry_state_undecided": "undecided", "carried_flag_irrelevant_bad": "finding"}
+                  "retry_state_undecided": "undecided", "carried_flag_irrelevant_bad": "finding",
+                  "length_checked_ok": "cert", "indexed_read_undecided": "undecided", "from_bytes_bad": "finding"}
 
 
 def fixture_selfcheck(ctx):
@@ -1679,7 +1691,9 @@ def _mutants_for_loop(core, f, loop, cert_kind):
                     arg = n.args[-1]
                     if isinstance(arg, ast.Call) and isinstance(arg.func, ast.Attribute) and arg.func.attr == "read":
                         # unpack(fmt, S.read(n)) -> (S.read(n), 0, 0, 0)  keeps tuple-unpacking / [0] subscripts alive
-                        tup = ast.Tuple(elts=[arg] + [ast.Constant(0)] * 7, ctx=ast.Load())
+                        lenient = ast.Call(func=ast.Attribute(value=ast.Name(id="int", ctx=ast.Load()), attr="from_bytes", ctx=ast.Load()),
+                                           args=[arg, ast.Constant("little")], keywords=[])
+                        tup = ast.Tuple(elts=[lenient] + [ast.Constant(0)] * 7, ctx=ast.Load())
                         if _replace_in(root, n, tup):
                             changed = True
         return changed
